@@ -434,3 +434,246 @@ func runClientPathEscaping(c *Ctx, rule string) {
 		c.Undecided(rule, "api/client.Connection", "fewer than 12 string parameters found ("+sprint(n)+")")
 	}
 }
+
+// ---- C19-E5: the error that is tested is the error of the call whose results are used.
+func runErrorTestedBeforeUse(c *Ctx, rule string) {
+	p := c.P
+	c.Rule(rule, "in the service handlers, when the non-error results of a call are used, the error result of that same call was compared with nil (testing another error variable lets a failed call's zero results flow on: the client then gets an unrelated failure, or a success, where direct access reports the call's error)")
+	n := 0
+	for _, fn := range p.FuncsIn("service") {
+		for _, ci := range allCalls(fn) {
+			call, ok := ci.(*ssa.Call)
+			if !ok {
+				continue
+			}
+			var errEx *ssa.Extract
+			used := false
+			for _, r := range *call.Referrers() {
+				ex, ok := r.(*ssa.Extract)
+				if !ok {
+					continue
+				}
+				if isError(ex.Type()) {
+					errEx = ex
+					continue
+				}
+				for _, rr := range *ex.Referrers() {
+					if _, isDbg := rr.(*ssa.DebugRef); !isDbg {
+						used = true
+					}
+				}
+			}
+			if errEx == nil || !used {
+				continue
+			}
+			n++
+			tested, escapes := false, false
+			var visit func(v ssa.Value, depth int)
+			visit = func(v ssa.Value, depth int) {
+				if depth > 4 {
+					return
+				}
+				for _, r := range *v.Referrers() {
+					switch x := r.(type) {
+					case *ssa.BinOp:
+						if isNilConst(x.X) || isNilConst(x.Y) {
+							tested = true
+						}
+					case *ssa.Return:
+						escapes = true
+					case *ssa.Phi:
+						visit(x, depth+1)
+					case *ssa.Store:
+						// stored into a variable: look at the loads of that variable
+						if a, ok := x.Addr.(*ssa.Alloc); ok {
+							for _, ar := range *a.Referrers() {
+								if u, ok := ar.(*ssa.UnOp); ok {
+									visit(u, depth+1)
+								}
+							}
+						} else {
+							escapes = true
+						}
+					}
+				}
+			}
+			visit(errEx, 0)
+			if tested || escapes {
+				continue
+			}
+			c.Fail(rule, constructName(fn)+" uses results of "+calleeName(call.Common())+" without testing its error", call.Pos(), "the error result of this call is never compared with nil although its other results are used: if the call fails, the handler carries on with zero values (here: an empty program), and the client sees an unrelated internal error or a success instead of the error direct access returns")
+		}
+	}
+	if n < 40 {
+		c.Undecided(rule, "service handlers", "fewer than 40 multi-result calls with an error found ("+sprint(n)+")")
+		return
+	}
+	c.extra("c19_error_tested_calls", n)
+	c.OK(rule, "service: calls whose results are used", token.NoPos, sprint(n)+" calls examined")
+}
+
+// ---- C19-K6: the server undoes exactly the escaping the client applies to path elements.
+func runPathEscapePairing(c *Ctx, rule string) {
+	p := c.P
+	c.Rule(rule, "path elements are escaped by the client with url.PathEscape and unescaped by the service with url.PathUnescape (QueryUnescape additionally turns `+` into a space, so a branch named a+b would be looked up as `a b`)")
+	up := p.Func("api/client.urlPath")
+	sp := p.Func("(*service.Request).StringFromPath")
+	if up == nil || sp == nil {
+		c.Undecided(rule, "client.urlPath / Request.StringFromPath", "anchors do not resolve")
+		return
+	}
+	esc, unesc := "", ""
+	for _, ci := range allCalls(up) {
+		if nm := calleeName(ci.Common()); strings.HasPrefix(nm, "net/url.") && strings.HasSuffix(nm, "Escape") {
+			esc = nm
+		}
+	}
+	for _, ci := range allCalls(sp) {
+		if nm := calleeName(ci.Common()); strings.HasPrefix(nm, "net/url.") && strings.HasSuffix(nm, "Unescape") {
+			unesc = nm
+		}
+	}
+	want := map[string]string{"net/url.PathEscape": "net/url.PathUnescape", "net/url.QueryEscape": "net/url.QueryUnescape"}
+	construct := "client.urlPath / service.Request.StringFromPath"
+	switch {
+	case esc == "" || unesc == "":
+		c.Undecided(rule, construct, "escape or unescape call not found ("+esc+" / "+unesc+")")
+	case want[esc] == unesc:
+		c.OK(rule, construct, sp.Pos(), esc+" is undone by "+unesc)
+	default:
+		c.Fail(rule, construct, sp.Pos(), "the client escapes path elements with "+esc+" but the service decodes them with "+unesc+": characters the two treat differently (`+`) change the name, so an operation on a branch or pool with such a name addresses another one through the service")
+	}
+}
+
+// ---- C19-E6: a handler that panics does not look like a success.
+func runPanicMiddlewareStatus(c *Ctx, rule string) {
+	p := c.P
+	c.Rule(rule, "the panic-catching middleware answers a recovered panic with an error status: on the path where recover() returned non-nil it writes a header (or an error) to the ResponseWriter — otherwise the client sees an empty 200 and decodes it as a zero-valued success")
+	var fn *ssa.Function
+	for _, f := range p.FuncsIn("service") {
+		top := f
+		for top.Parent() != nil {
+			top = top.Parent()
+		}
+		if top.Name() != "panicCatchMiddleware" {
+			continue
+		}
+		for _, b := range f.Blocks {
+			for _, in := range b.Instrs {
+				if call, ok := in.(*ssa.Call); ok {
+					if bi, ok := call.Call.Value.(*ssa.Builtin); ok && bi.Name() == "recover" {
+						fn = f
+					}
+				}
+			}
+		}
+	}
+	if fn == nil {
+		c.Undecided(rule, "service.panicCatchMiddleware", "the deferred recover was not found")
+		return
+	}
+	writes := false
+	for _, ci := range allCalls(fn) {
+		cc := ci.Common()
+		if cc.IsInvoke() && (cc.Method.Name() == "WriteHeader" || cc.Method.Name() == "Write") {
+			writes = true
+		}
+		if nm := calleeName(cc); nm == "net/http.Error" || strings.HasSuffix(nm, "ResponseWriter).Error") {
+			writes = true
+		}
+	}
+	if writes {
+		c.OK(rule, "service.panicCatchMiddleware", fn.Pos(), "writes a status after recovering")
+	} else {
+		c.Fail(rule, "service.panicCatchMiddleware", fn.Pos(), "a recovered panic is only logged: nothing is written to the response, so net/http sends 200 with an empty body and the client's doAndUnmarshal returns a zero-valued result without an error — an operation that crashed in the service reports success remotely")
+	}
+}
+
+// ---- C19-K7: names spliced into query text are quoted as literals.
+func runQueryTextQuoting(c *Ctx, rule string) {
+	p := c.P
+	c.Rule(rule, "the lake/api helpers that look pools and branches up by name through a query build the query text with the name as a properly quoted literal (zson.QuotedString): a name with a quote or backslash otherwise breaks or changes the query, so the remote handle cannot address a pool that direct access opens by the same name")
+	n := 0
+	for _, fn := range p.FuncsIn("lake/api") {
+		if fn.Parent() != nil {
+			continue
+		}
+		for _, ci := range allCalls(fn) {
+			if calleeName(ci.Common()) != "fmt.Sprintf" {
+				continue
+			}
+			args := ci.Common().Args
+			if len(args) < 2 {
+				continue
+			}
+			// does the formatted text become a query?
+			v, ok := ci.(ssa.Value)
+			if !ok {
+				continue
+			}
+			isQuery := false
+			for _, r := range *v.Referrers() {
+				if cc, ok := r.(ssa.CallInstruction); ok && cc.Common().IsInvoke() && cc.Common().Method.Name() == "Query" {
+					isQuery = true
+				}
+			}
+			if !isQuery {
+				continue
+			}
+			sl, ok := args[1].(*ssa.Slice)
+			if !ok {
+				continue
+			}
+			arr, ok := sl.X.(*ssa.Alloc)
+			if !ok {
+				continue
+			}
+			for _, r := range *arr.Referrers() {
+				ia, ok := r.(*ssa.IndexAddr)
+				if !ok {
+					continue
+				}
+				for _, rr := range *ia.Referrers() {
+					st, ok := rr.(*ssa.Store)
+					if !ok {
+						continue
+					}
+					mi, ok := st.Val.(*ssa.MakeInterface)
+					if !ok {
+						continue
+					}
+					b, isBasic := mi.X.Type().Underlying().(*types.Basic)
+					if !isBasic || b.Kind() != types.String {
+						continue
+					}
+					fromParam := dependsOn(mi.X, func(x ssa.Value) bool {
+						prm, ok := x.(*ssa.Parameter)
+						if !ok {
+							return false
+						}
+						pb, ok := prm.Type().Underlying().(*types.Basic)
+						return ok && pb.Kind() == types.String
+					})
+					if !fromParam {
+						continue
+					}
+					n++
+					quoted := false
+					if call, ok := mi.X.(*ssa.Call); ok {
+						nm := calleeName(&call.Call)
+						quoted = nm == "zson.QuotedString" || nm == "zson.QuotedName" || nm == "strconv.Quote"
+					}
+					construct := fnName(fn) + " splices a name into query text #" + sprint(n)
+					if quoted {
+						c.OK(rule, construct, st.Pos(), "quoted as a literal")
+					} else {
+						c.Fail(rule, construct, st.Pos(), "a caller-chosen name is put into the query text between hand-written quotes: a pool named `it's` makes the lookup query a syntax error (or a different query) through the remote handle, while direct access resolves the name")
+					}
+				}
+			}
+		}
+	}
+	if n < 2 {
+		c.Undecided(rule, "lake/api lookups by name", "fewer than 2 spliced names found ("+sprint(n)+")")
+	}
+}
